@@ -82,6 +82,16 @@ def exL : Node :=
     followers := [{ id := 1 }, { id := 2, next := 3, mtch := 2 }, { id := 3, next := 1, mtch := 0 }] }
 example : (exL.commitStep 0).1.commitIndex = 2 := by decide
 
+/-- **A new leadership starts from no acknowledgements**: `becomeLeader` resets every match index
+    (what an earlier leadership of the same node had recorded may have been overwritten since:
+    the commit rule may only count acknowledgements of this term). -/
+theorem C04_become_leader_resets_match (n : Node) (now : Nat) :
+    ∀ f ∈ (n.becomeLeader now).1.followers, f.mtch = 0 := by
+  intro f hf
+  unfold Node.becomeLeader Node.sendAEToPeers Node.tryApplyReadOnly Node.resetSnapshots at hf
+  simp only at hf
+  split at hf <;> simp only [List.mem_map] at hf <;> (obtain ⟨g, ⟨a, _, rfl⟩, rfl⟩ := hf; rfl)
+
 /-! ### Cluster level (Proofs/ReplSafety.lean) -/
 
 /-- **What is committed stays committed**: a committed prefix (a leader advanced its commit
